@@ -251,3 +251,75 @@ pub fn ob_rehash_in_place<S: Src, const N: usize>(s: &mut S) -> Chk {
     Ok(())
 }
 
+
+/// reserve(additional): nothing happens while growth_left suffices; otherwise tombstones are
+/// reclaimed IN PLACE exactly when items + additional <= capacity / 2, else the table grows to
+/// capacity_to_buckets(max(items + additional, capacity + 1)); contents kept, room guaranteed.
+pub fn ob_reserve<S: Src, const N: usize>(s: &mut S) -> Chk {
+    let st = match draw_state::<S, N>(s, true) {
+        Some(st) => st,
+        None => return Ok(()),
+    };
+    let add = s.below(2 * N + 2);
+    let mut t = build(&st);
+    let ctrl0 = t.table.ctrl.as_ptr();
+    let cap = St::<N>::CAP;
+    let (items, gl) = (st.items(), st.growth_left());
+    reach!(add > gl && items + add <= cap / 2, "in-place reclamation");
+    reach!(add > gl && items + add > cap / 2, "growth");
+    t.reserve(add, hasher);
+    ensure!(t.table.growth_left >= add, "reserve(n): room for n more elements (capacity() >= len() + n)");
+    if add <= gl {
+        ensure!(t.buckets() == N && t.table.ctrl.as_ptr() == ctrl0, "reserve within growth_left touches nothing");
+        let st2 = read_state::<N>(&t)?;
+        ensure!(st2.same_except(&st, N), "reserve within growth_left leaves every bucket as it was");
+    } else if items + add <= cap / 2 {
+        ensure!(t.buckets() == N && t.table.ctrl.as_ptr() == ctrl0, "reserve reclaims tombstones in place when len + additional <= capacity / 2");
+        let st2 = read_state::<N>(&t)?;
+        ensure!(st.same_view(&st2) && st2.deleted() == 0 && st2.reach_all(), "in-place reclamation keeps every element reachable and leaves no tombstone");
+    } else {
+        let want = core::cmp::max(items + add, cap + 1);
+        let nb = capacity_to_buckets(want, TableLayout::new::<u64>());
+        ensure!(nb == Some(t.buckets()), "reserve grows to capacity_to_buckets(max(len + additional, capacity + 1)) buckets, no more");
+        ensure!(t.table.items == items, "growth keeps the element count");
+    }
+    Ok(())
+}
+
+/// RawTable::insert at full load where the slot found first is an EMPTY bucket: reserve(1) runs
+/// (in place or growing) and the slot is searched AGAIN in the rehashed table.
+pub fn ob_insert_full_load<S: Src, const N: usize, const N2: usize>(s: &mut S) -> Chk {
+    let mut st = match draw_state::<S, N>(s, true) {
+        Some(st) => st,
+        None => return Ok(()),
+    };
+    if s.native() {
+        // saturate: turn EMPTY buckets into tombstones until growth_left == 0 (F2 is unaffected by
+        // EMPTY -> DELETED on tables of at least one group; smaller tables hold no tombstones)
+        if N >= Group::WIDTH {
+            for_upto!(i, N, {
+                if st.kind[i] == K_EMPTY && st.items() + st.deleted() < St::<N>::CAP {
+                    st.kind[i] = K_DELETED;
+                }
+            });
+        }
+    }
+    req!(s, st.accounting_ok() && st.growth_left() == 0 && st.reach_all());
+    let v = s.u64();
+    let first = spec_first_special(&st, (hash_of(v) as usize) & (N - 1));
+    req!(s, first != usize::MAX && st.kind[first] == K_EMPTY);
+    let mut t = build(&st);
+    let b = t.insert(hash_of(v), v, hasher);
+    ensure!(unsafe { *b.as_ref() } == v, "insert: returned bucket holds the value");
+    if t.buckets() == N {
+        let st2 = read_state::<N>(&t)?;
+        ensure!(st.same_view_plus(&st2, v), "insert at full load (in-place rehash): one more copy, nothing lost");
+        ensure!(st2.reach_all(), "insert at full load (in-place rehash): every element, the new one included, is reachable");
+    } else {
+        ensure!(t.buckets() == N2, "insert at full load grows to the next size only");
+        let st2 = read_state::<N2>(&t)?;
+        ensure!(st.same_view_plus(&st2, v), "insert at full load (growth): one more copy, nothing lost");
+        ensure!(st2.reach_all(), "insert at full load (growth): every element reachable");
+    }
+    Ok(())
+}
